@@ -269,6 +269,44 @@ theorem defrag_delivers_messages (tls13 : Bool) (msgs frags : List Bytes)
   simp only [List.nil_append] at e
   rw [tlsDefrag_eq, e, hcut, splitAll_wellformed msgs hm]
 
+/-- Sender fragmentation (`_sendMsg`, any `recordSize` ≥ 1 — user setting or negotiated
+    record_size_limit): every buffer handed to `_sendMsg` (a handshake message, or a coalesced
+    flight) is cut into records that concatenate to the buffer, are at most `recordSize` long and,
+    for a non-empty buffer, are NEVER empty — also when `recordSize` divides the length exactly. -/
+theorem sendMsg_fragments (k : Nat) (hk : 1 ≤ k) (buf : Bytes) :
+    (fragmentMsg k buf).flatten = buf ∧ (∀ f ∈ fragmentMsg k buf, f.length ≤ k) ∧
+    (buf ≠ [] → ∀ f ∈ fragmentMsg k buf, f ≠ []) :=
+  fragmentMsg_spec k hk buf
+
+/-- ... so the receiver's result is invariant under the sender's chunking: whatever `recordSize`
+    the sender uses and however it groups the messages into `_sendMsg` buffers, `_getNextRecord`
+    delivers exactly the messages; and an empty handshake fragment (what an off-by-one in the
+    sender's loop produces when `recordSize` divides a message length) is refused. -/
+theorem receiver_invariant_under_sender_fragmentation (tls13 : Bool) (k : Nat) (hk : 1 ≤ k)
+    (msgs bufs : List Bytes) (hm : ∀ m ∈ msgs, WFMsg m) (hb : ∀ b ∈ bufs, b ≠ [])
+    (hcut : bufs.flatten = msgs.flatten) (fuel : Nat)
+    (hf : fragMeasure [] (bufs.flatMap (fragmentMsg k)) < fuel) :
+    getAll tls13 fuel tlsDefrag (hsRecs (bufs.flatMap (fragmentMsg k))) =
+      (msgs.map (GOut.msg 22), none, tlsDefrag) ∧
+    (∀ (c : Bytes) (rest : List Rec), hsHandler.size c = none →
+      getNextRecord tls13 (tls3 [] [] c) ({ type := 22, data := [] } :: rest) = .error .unexpectedMessage) := by
+  refine ⟨?_, fun c rest hs => empty_fragment_refused tls13 c rest hs⟩
+  apply defrag_delivers_messages tls13 msgs _ hm _ _ fuel hf
+  · intro f hf'
+    rw [List.mem_flatMap] at hf'
+    obtain ⟨b, hbm, hfb⟩ := hf'
+    exact (fragmentMsg_spec k hk b).2.2 (hb b hbm) f hfb
+  · rw [flatMap_fragment_flatten, hcut]
+
+-- recordSize 4 divides the 4-byte ServerHelloDone exactly: one record, no empty one; 10 bytes with size 5: two records
+example : fragmentMsg 4 [0x0e, 0, 0, 0] = [[0x0e, 0, 0, 0]] ∧
+    fragmentMsg 5 [0x10, 0, 0, 6, 1, 2, 3, 4, 5, 6] = [[0x10, 0, 0, 6, 1], [2, 3, 4, 5, 6]] ∧
+    fragmentMsg 3 [0x0e, 0, 0, 0] = [[0x0e, 0, 0], [0]] := by decide
+
+-- what the receiver does with the extra empty record of an off-by-one sender
+example : getAll false 20 tlsDefrag [{ type := 22, data := [0x0e, 0, 0, 0] }, { type := 22, data := [] }] =
+    ([.msg 22 [0x0e, 0, 0, 0]], some .unexpectedMessage, tlsDefrag) := by decide
+
 /-- the splitting law behind it, for every size handler the Defragmenter can be given -/
 theorem defrag_split_append (h : Handler) (hp : h.Pos) (a b : Bytes) :
     splitAll h (a ++ b) =
